@@ -86,6 +86,49 @@ theorem C01_sendAllFuel_chunk_le (cm : Nat) (fuel : Nat) (s : Snd α) :
       · subst h; rw [this]; exact hsz
       · exact ih s' f h
 
+/-- bytes the reader holds for the message in progress -/
+def stLen : RState α → Nat
+  | none => 0
+  | some (_, b) => b.length
+
+/-- **The reader fabricates no bytes**, whatever it is fed (well-formed or not,
+    any frame kinds in any order): the messages it hands out never add up to
+    more bytes than the frames carried (plus what it already held). -/
+theorem C01_reader_no_fabricated_bytes (fs : List (DFrame α)) : ∀ (st : RState α),
+    (((parse st fs).1.map List.length).sum) ≤ stLen st + (fs.map DFrame.size).sum := by
+  induction fs with
+  | nil => intro st; simp [parse]
+  | cons f fs ih =>
+    intro st
+    unfold parse
+    cases st with
+    | none =>
+      cases f with
+      | env size d =>
+        by_cases h1 : d.length > size
+        · simp [parseStep, h1]
+        · by_cases h2 : d.length = size
+          · have := ih none; simp [parseStep, h2, stLen, DFrame.size] at this ⊢; omega
+          · have := ih (some (size, d)); simp [parseStep, h1, h2, stLen, DFrame.size] at this ⊢; omega
+      | more d => simp [parseStep]
+      | other => simp [parseStep]
+    | some p =>
+      obtain ⟨n, b⟩ := p
+      cases f with
+      | env size d => simp [parseStep]
+      | more d =>
+        by_cases h1 : n < b.length + d.length
+        · simp [parseStep, h1]
+        · by_cases h2 : b.length + d.length = n
+          · have := ih none; simp [parseStep, h2, stLen, DFrame.size] at this ⊢; omega
+          · have := ih (some (n, b ++ d)); simp [parseStep, h1, h2, stLen, DFrame.size] at this ⊢; omega
+      | other => simp [parseStep]
+
+/-- from a fresh stream: delivered bytes ≤ bytes received in data frames -/
+theorem C01_reader_delivers_at_most_received (fs : List (DFrame α)) :
+    (((parse none fs).1.map List.length).sum) ≤ (fs.map DFrame.size).sum := by
+  simpa [stLen] using C01_reader_no_fabricated_bytes fs none
+
 -- non-vacuity: a 5-byte message under windows 2 then 3 (chunkMax 2)
 example : (pump 2 2 (Snd.start [1,2,3,4,5])).1 = [.env 5 [1,2]] := by decide
 example : (parse none [DFrame.env 5 [1,2], .more [3,4], .more [5]]).1 = [[1,2,3,4,5]] := by decide
